@@ -219,7 +219,12 @@ class ArithFunctions(InterpreterFunctions):
         rhs: int
         (lhs, rhs) = args
         assert rhs >= 0
-        return (to_signed(lhs << rhs, _int_bitwidth(interpreter, op.result.type)),)
+        bitwidth = _int_bitwidth(interpreter, op.result.type)
+        if rhs >= bitwidth:
+            # All the bits are shifted out (the result is poison in MLIR), avoid
+            # materialising an arbitrarily large intermediate value
+            return (0,)
+        return (to_signed(lhs << rhs, bitwidth),)
 
     @impl(arith.ShRSIOp)
     def run_shrsi(
